@@ -143,6 +143,59 @@ def find_item(src, impl_pat, kind, name):
     raise ExtractError(f"no body for {kind} {name}")
 
 
+def slice_statements(ct, pat_a, pat_b, name):
+    """R10: the statements of a fn body from the one starting with tokens pat_a through the end of the
+    one starting with pat_b (both at the top level of the body)."""
+    # body = first '{' at paren depth 0 after 'fn'
+    depth = 0
+    body_open = None
+    for i, t in enumerate(ct):
+        if t.kind == "punct":
+            if t.text in ("(", "["):
+                depth += 1
+            elif t.text in (")", "]"):
+                depth -= 1
+            elif t.text == "{" and depth == 0:
+                body_open = i
+                break
+    if body_open is None:
+        raise ExtractError(f"STMTS: no body in {name}")
+    body_close = match_close(ct, body_open)
+    # statement starts at depth 1
+    starts = []
+    d = 0
+    at_start = True
+    for i in range(body_open + 1, body_close):
+        t = ct[i]
+        if d == 0 and at_start:
+            starts.append(i)
+            at_start = False
+        if t.kind == "punct":
+            if t.text in OPEN:
+                d += 1
+            elif t.text in CLOSE:
+                d -= 1
+                if d == 0 and t.text == "}":
+                    # block-like statement may end here (if / for / match without ';')
+                    nxt = ct[i + 1].text if i + 1 < body_close else ""
+                    if nxt not in (";", ".", "?", "else", ")", ","):
+                        at_start = True
+            elif t.text == ";" and d == 0:
+                at_start = True
+    def find(pat):
+        hits = [s0 for s0 in starts if [x.text for x in ct[s0:s0 + len(pat)]] == pat]
+        if len(hits) != 1:
+            raise ExtractError(f"STMTS anchor {' '.join(pat)!r} matched {len(hits)} statements in {name}")
+        return hits[0]
+    a = find(pat_a)
+    b = find(pat_b)
+    if b < a:
+        raise ExtractError("STMTS anchors out of order")
+    later = [s0 for s0 in starts if s0 > b]
+    end = later[0] if later else body_close
+    return ct[a:end]
+
+
 def _tok_sub(pat, text):
     """pat, text: space-joined token strings; whole-token substring test"""
     return (" " + pat + " ") in (" " + text + " ")
@@ -257,21 +310,76 @@ def parse_subst(line):
     return ([t.text for t in a], b, line.strip())
 
 
+def _match_at(ct, i, pat):
+    """try to match pattern tokens `pat` at ct[i]; `$N` (tokens '$','N') is a wildcard matching a
+    non-empty balanced token sequence up to the next pattern token at bracket depth 0.
+    returns (end_index, {N: [tokens]}) or None"""
+    binds = {}
+    p = 0
+    n = len(ct)
+    while p < len(pat):
+        if pat[p] == "$" and p + 1 < len(pat) and pat[p + 1].isdigit():
+            var = pat[p + 1]
+            nxt = pat[p + 2] if p + 2 < len(pat) else None
+            depth = 0
+            j = i
+            while j < n:
+                t = ct[j].text
+                if depth == 0 and nxt is not None and t == nxt and j > i:
+                    break
+                if t in OPEN:
+                    depth += 1
+                elif t in CLOSE:
+                    if depth == 0:
+                        break
+                    depth -= 1
+                j += 1
+            if j == i or (nxt is not None and (j >= n or ct[j].text != nxt)):
+                return None
+            binds[var] = ct[i:j]
+            i = j
+            p += 2
+        else:
+            if i >= n or ct[i].text != pat[p]:
+                return None
+            i += 1
+            p += 1
+    return i, binds
+
+
 def apply_subst(ct, subst, log):
     pat, rep, desc = subst
     out = []
     i = 0
     n = len(ct)
-    k = len(pat)
     cnt = 0
+    has_wild = "$" in pat
+    k = len(pat)
     while i < n:
-        if ct[i].text == pat[0] and i + k <= n and all(ct[i + d].text == pat[d] for d in range(k)):
-            out.extend(Tok(r.kind, r.text, -1, r.glued) for r in rep)
-            i += k
-            cnt += 1
-        else:
-            out.append(ct[i])
-            i += 1
+        if not has_wild:
+            if ct[i].text == pat[0] and i + k <= n and all(ct[i + d].text == pat[d] for d in range(k)):
+                out.extend(Tok(r.kind, r.text, -1, r.glued) for r in rep)
+                i += k
+                cnt += 1
+                continue
+        elif ct[i].text == pat[0] or pat[0] == "$":
+            m = _match_at(ct, i, pat)
+            if m:
+                end, binds = m
+                q = 0
+                while q < len(rep):
+                    r = rep[q]
+                    if r.text == "$" and q + 1 < len(rep) and rep[q + 1].text in binds:
+                        out.extend(binds[rep[q + 1].text])
+                        q += 2
+                    else:
+                        out.append(Tok(r.kind, r.text, -1, r.glued))
+                        q += 1
+                i = end
+                cnt += 1
+                continue
+        out.append(ct[i])
+        i += 1
     log.append(("SUBST", desc, cnt))
     return out
 
@@ -286,6 +394,7 @@ class Block:
     def __init__(self):
         self.file = self.impl_pat = self.kind = self.name = None
         self.obls = []
+        self.stmts = None   # (start pattern tokens, end pattern tokens) for statement-level extraction (rule R10)
         self.substs = []
         self.lines = []  # annotated text lines
         self.start_line = 0
@@ -334,6 +443,11 @@ def parse_template(text):
                 for extra in f[3:]:
                     if extra.startswith("OBL"):
                         cur.obls = [x.strip() for x in extra[3:].split(",") if x.strip()]
+                    elif extra.startswith("STMTS"):
+                        m = re.match(r"STMTS\s+`(.*?)`\s*\.\.\s*`(.*?)`\s*$", extra)
+                        if not m:
+                            raise ExtractError(f"line {ln}: bad STMTS clause")
+                        cur.stmts = ([t.text for t in code_tokens(tokenize(m.group(1)))], [t.text for t in code_tokens(tokenize(m.group(2)))])
                 cur.start_line = ln
             elif d.startswith("END"):
                 if not cur:
@@ -386,6 +500,9 @@ def split_additions(text):
 STMT_ADD = re.compile(r"\s*(proof\b|let\s+ghost\b|assert\b|assume\b|broadcast\b|reveal\b)")
 
 
+KEEP_VISIBILITY = False
+
+
 def fetch_real(repo, blk, unit_substs):
     log = []
     path = f"{repo}/{blk.file}"
@@ -394,10 +511,13 @@ def fetch_real(repo, blk, unit_substs):
     except OSError as e:
         raise ExtractError(f"cannot read {path}: {e}")
     ct = find_item(src, blk.impl_pat, blk.kind, blk.name)
+    if blk.stmts:
+        ct = slice_statements(ct, blk.stmts[0], blk.stmts[1], blk.name)
     raw_text = " ".join(t.text for t in ct)
     ct = rule_R1_attrs(ct, log)
     ct = rule_R2_logs(ct, log)
-    ct = rule_R14_visibility(ct, log)
+    if not KEEP_VISIBILITY:
+        ct = rule_R14_visibility(ct, log)
     for sb in unit_substs + blk.substs:
         ct = apply_subst(ct, sb, log)
     return ct, log, hashlib.sha256(raw_text.encode()).hexdigest()
@@ -487,7 +607,9 @@ def render_inline(stream):
 
 def build_unit(template_text, repo, base="/verif"):
     """returns dict(text=..., blocks=[{...}], name=...)"""
+    global KEEP_VISIBILITY
     template_text = expand_includes(template_text, base)
+    KEEP_VISIBILITY = "//@ OPTION keep_visibility" in template_text
     unit, usub, parts = parse_template(template_text)
     out = []
     blocks = []
@@ -507,7 +629,19 @@ def build_unit(template_text, repo, base="/verif"):
             "identical": identical, "stats": stats, "rules": log, "sha256_repo_item": sha,
             "line_start": start, "line_end": line_no - 1,
         })
-    return {"name": unit, "text": "\n".join(out), "blocks": blocks}
+    text = "\n".join(out)
+    # wrapper regions (generated fns around statement-level blocks): `//@ WRAPPER_BEGIN` .. `//@ WRAPPER_END`
+    begin = None
+    for ln, line in enumerate(text.split("\n"), 1):
+        t = line.strip()
+        if t.startswith("// WRAPPER_BEGIN"):
+            begin = ln
+        elif t.startswith("// WRAPPER_END") and begin is not None:
+            for b in blocks:
+                if begin <= b["line_start"] and b["line_end"] <= ln:
+                    b["wrap_start"], b["wrap_end"] = begin, ln
+            begin = None
+    return {"name": unit, "text": text, "blocks": blocks}
 
 
 if __name__ == "__main__":
